@@ -687,7 +687,11 @@ def inst_cfgs():
             lambda an=allow_none: AdaptsTo(IFoo, allow_none=an),
             lambda s, an=allow_none: (an and s is None) or
             isinstance(s, (FooImpl, C, CToFoo)),  # stores the original value
-            None, "FOO0", kind="AdaptsTo",
+            # documented: the value itself is stored, the adapter goes to
+            # the shadow attribute
+            lambda v, an=allow_none: ("same", v) if (
+                (an and v is None) or isinstance(v, (FooImpl, C)))
+            else UNSPEC, "FOO0", kind="AdaptsTo",
             shadow=lambda s: ("isinstance", (FooImpl, CToFoo, type(None))))
         cfg("Type(A,allow_none=%s)" % allow_none,
             lambda an=allow_none: Type(klass=A, allow_none=an),
